@@ -17,17 +17,17 @@ import (
 
 // Program is the loaded repository plus its contracts.
 type Program struct {
-	Fset      *token.FileSet
-	SSA       *ssa.Program
-	Pkgs      []*ssa.Package // repository packages
-	ByName    map[string]*ssa.Package
-	Funcs     map[string]*ssa.Function
-	Contracts *ContractSet
-	RepoDir   string
-	mu        sync.Mutex
-	loopCache map[*ssa.Function]*loopInfo
-	srcCache  map[string][]string
-	ifaceT    map[string]*types.Interface
+	Fset          *token.FileSet
+	SSA           *ssa.Program
+	Pkgs          []*ssa.Package // repository packages
+	ByName        map[string]*ssa.Package
+	Funcs         map[string]*ssa.Function
+	Contracts     *ContractSet
+	RepoDir       string
+	mu            sync.Mutex
+	loopCache     map[*ssa.Function]*loopInfo
+	srcCache      map[string][]string
+	ifaceT        map[string]*types.Interface
 	ContractFiles []string
 }
 
